@@ -5,15 +5,21 @@ EXTENDS TshAst
 CONSTANT Tier
 Quick == Tier = "quick"
 \* see harness/purity.go for the source trees: shA..shBad are main files in ONE directory sharing lib.tsh -> util.tsh (globals, top-level code) by path,
-\* mut1/mut2 are one and the same path whose imported file is rewritten (two versions) before the call
+\* mut1/mut2 are one and the same path whose imported file is rewritten (two versions) before the call,
+\* copies/copies2 import two different paths with identical bytes (directly / behind two other imports)
 Progs == <<"plain", "dirA", "dirB", "stdmany", "shA", "shB", "shC", "shD", "shBad", "shBadFn", "mut1", "mut2", "strdefA", "strdefB", "strdefC", "nlA", "nlB", "silent0", "silent1", "silent3">>
 Core == {"plain", "dirA", "dirB", "stdmany"}
 Targets == <<"bash", "batch">>
 Modes == IF Quick THEN <<"same", "newobj", "newproc">> ELSE <<"same", "newobj", "newproc", "relocated", "relocatedproc">>
 Op == [prog : {Progs[i] : i \in 1..Len(Progs)}, target : {"bash", "batch"}, mode : {Modes[i] : i \in 1..Len(Modes)}]
 OpName(o) == o.prog \o "." \o o.target \o "." \o o.mode
-H1 == {<<a>> : a \in Op}
-H2 == {<<a, b>> : a \in Op, b \in Op}
+\* copied modules: single calls in every mode, pairs among themselves; single calls from a relocated byte-identical copy of the tree
+\* (same process / fresh process) are part of every tier, for every program
+CopyProgs == {"copies", "copies2"}
+OpC == [prog : CopyProgs, target : {"bash", "batch"}, mode : {Modes[i] : i \in 1..Len(Modes)}]
+RelocOp == [prog : {Progs[i] : i \in 1..Len(Progs)} \cup CopyProgs, target : {"bash", "batch"}, mode : {"relocated", "relocatedproc"}]
+H1 == {<<a>> : a \in Op \cup OpC \cup RelocOp}
+H2 == {<<a, b>> : a \in Op, b \in Op} \cup {<<a, b>> : a \in OpC, b \in OpC \cup RelocOp}
 \* length 3: the first two calls in the same process on different programs, then any third call
 Op3 == IF Quick THEN {o \in Op : o.prog \in Core \/ o.target = "bash"} ELSE Op
 H3 == {<<a, b, c>> : a \in {o \in Op3 : o.mode = "same"}, b \in {o \in Op3 : o.mode \in {"same", "newobj"}}, c \in (IF Quick THEN {o \in Op3 : o.mode = "same"} ELSE {o \in Op : o.prog \in Core \/ o.target = "bash"})}
